@@ -179,6 +179,33 @@ static int trace_main(const char *out, unsigned seed, int nkeys, long nops) {
     char key[32], obs[64];
     static char keys[4096][12];
     for (int i = 0; i < nkeys && i < 4096; i++) snprintf(keys[i], sizeof keys[i], "k%d", i);
+    if (getenv("VP_TRACE_CLUSTER")) {
+        /* adversarial key set: 128 keys homed at slot 10 of the initial table (a cluster as long as the probe limit), then keys homed
+           at its far end and in its middle: removals at the head of the cluster must keep every later entry reachable */
+        static const int homes[3] = {10, 137, 100};
+        int n = 0, cand = 0;
+        for (int part = 0; part < 3; part++)
+            for (int want = part == 0 ? 128 : 6; want > 0 && n < nkeys; cand++) {
+                char k[12]; snprintf(k, sizeof k, "c%d", cand);
+                if ((int)(hash_string(k) & 255) == homes[part]) { snprintf(keys[n++], sizeof keys[0], "%s", k); want--; }
+            }
+        nkeys = n;
+        /* scripted part: fill the whole set in, then take keys away at the head of the cluster and look every key up again */
+        for (int i = 0; i < nkeys && nextv < TV - 2; i++) {
+            int v = nextv++, ret = m_map_put(M, keys[i], &TVv[v]);
+            snprintf(obs, sizeof obs, "%d", ret < 0 ? -1 : ret); tr_log("Put", keys[i], v, obs, NULL);
+        }
+        for (int j = 0; j < 4 && nextv < TV - 2; j++) {
+            int ret = m_map_remove(M, keys[j * 3]);
+            snprintf(obs, sizeof obs, "%d", ret < 0 ? -1 : ret); tr_log("Remove", keys[j * 3], 0, obs, NULL);
+            for (int i = 0; i < nkeys; i++) {
+                void *g = m_map_get(M, keys[i]);
+                snprintf(obs, sizeof obs, "%d", g ? ((val_t *)g)->id : 0); tr_log("Get", keys[i], 0, obs, NULL);
+            }
+            int v = nextv++; ret = m_map_put(M, keys[j * 3], &TVv[v]);
+            snprintf(obs, sizeof obs, "%d", ret < 0 ? -1 : ret); tr_log("Put", keys[j * 3], v, obs, NULL);
+        }
+    }
     for (long op = 0; op < nops && nextv < TV - 2; op++) {
         int r = rand() % 100;
         int ki = (op < nkeys * 2 && r < 55) ? (int)(op / 2 % nkeys) : rand() % nkeys;   /* first fill the table up (growth), then churn */
